@@ -46,6 +46,17 @@ try:
     meta = json.load(open('%s/meta%s.json' % (src, k)))
 except Exception as ex:
     meta = {'note': 'seed agent meta unreadable: %r' % ex}
+prev = {}
+try:
+    prev = json.load(open(dst + '/meta.json'))
+except Exception:
+    pass
+history = prev.get('detection_history', [])
+if not history and 'detected_by_quick_check' in prev:
+    history.append(dict(when='earlier run', detected=prev['detected_by_quick_check'], concrete=prev.get('concrete_input_found')))
+history.append(dict(when=time.strftime('%Y-%m-%d %H:%M'), detected=detected, concrete=bool(viol) and 'no-failing-input-found' not in viol[0],
+                    verif_commit=sh('git -C /verif rev-parse --short HEAD').stdout.strip(), repo_commit=sh('git -C /repo rev-parse --short HEAD').stdout.strip()))
+meta.update(detection_history=history)
 meta.update(property=pid, seed_id='%s-%s' % (pid, k), confirmed_by_integrator=confirmed, integrator_ran=ran,
             detected_by_quick_check=detected, check_output_tail=lines[-14:],
             concrete_input_found=bool(viol) and 'no-failing-input-found' not in viol[0])
